@@ -219,6 +219,22 @@ static void do_query(char *p) {
     out("],\"over\":%d}", over); out_end();
     for (i = 0; i < n + 2; i++) if (sets[i]) hwloc_bitmap_free(sets[i]);
     free(sets);
+  } else if (!strcmp(k, "mem_parents_depth")) {
+    out("{\"e\":\"mem_parents_depth\",\"res\":%d}", hwloc_get_memory_parents_depth(topo)); out_end();
+  } else if (!strcmp(k, "type_depth_attr")) {
+    /* q type_depth_attr <type> <group depth | -1 unspecified> <0: pass attr, 1: pass NULL/0> */
+    int ty = (int)hwv_tokl(&p); long gd = hwv_tokl(&p); int noattr = (int)hwv_tokl(&p); union hwloc_obj_attr_u a; int r;
+    memset(&a, 0, sizeof a); a.group.depth = (unsigned)gd;
+    r = noattr ? hwloc_get_type_depth_with_attr(topo, (hwloc_obj_type_t)ty, NULL, 0) : hwloc_get_type_depth_with_attr(topo, (hwloc_obj_type_t)ty, &a, sizeof a);
+    out("{\"e\":\"type_depth_attr\",\"type\":%d,\"gdepth\":%ld,\"noattr\":%d,\"res\":%d}", ty, gd, noattr, r); out_end();
+  } else if (!strcmp(k, "pcidev_by_busid")) {
+    unsigned dom = (unsigned)hwv_tokl(&p), bus = (unsigned)hwv_tokl(&p), dev = (unsigned)hwv_tokl(&p), fn = (unsigned)hwv_tokl(&p); char str[64], shortstr[64];
+    snprintf(str, sizeof str, "%04x:%02x:%02x.%01x", dom, bus, dev, fn); snprintf(shortstr, sizeof shortstr, "%02x:%02x.%01x", bus, dev, fn);
+    out("{\"e\":\"pcidev_by_busid\",\"dom\":%u,\"bus\":%u,\"dev\":%u,\"func\":%u,\"res\":%d,\"sres\":%d,\"short\":%d}", dom, bus, dev, fn,
+        pos(hwloc_get_pcidev_by_busid(topo, dom, bus, dev, fn)), pos(hwloc_get_pcidev_by_busidstring(topo, str)), pos(hwloc_get_pcidev_by_busidstring(topo, shortstr))); out_end();
+  } else if (!strcmp(k, "bridge_covers")) {
+    long op = hwv_tokl(&p); unsigned dom = (unsigned)hwv_tokl(&p), bus = (unsigned)hwv_tokl(&p); hwloc_obj_t o = at(op);
+    if (o) { out("{\"e\":\"bridge_covers\",\"obj\":%ld,\"dom\":%u,\"bus\":%u,\"res\":%d}", op, dom, bus, hwloc_bridge_covers_pcibus(o, dom, bus)); out_end(); }
   } else if (!strcmp(k, "singlify")) {
     hwloc_bitmap_t s = parse_set(hwv_tok(&p)), a = hwloc_bitmap_dup(s); unsigned which = (unsigned)hwv_tokl(&p); int ret;
     ret = hwloc_bitmap_singlify_per_core(topo, s, which);
